@@ -26,16 +26,24 @@ I_ASSUME = [
     'engine I: when the current source cannot be encoded, or a violated obligation does not reproduce as a public-API history on the real backend, the in-memory leg is reported as not decided (NOTE line, evidence engine_i.not_decided) and the verdict rests on the other engines',
 ]
 
+Q_ASSUME = [
+    'engine Q: rusqlite and SQLite are the ENVIRONMENT of the glue: every SQL string the glue passes is parsed (s/gen_sql.py subset) and interpreted over symbolic rows with SQLite\'s documented semantics (first match in insertion order, NULL never equal, NULL + 1 = NULL, PRIMARY KEY / UNIQUE / NOT NULL / DEFAULT from the CREATE statements of the current source, INSERT OR REPLACE deletes the conflicting row); transactions and locking are not modelled here (engine S s_exclusive)',
+    'engine Q: StoredUuid <-> text is taken as the canonical codec (decided for all 2^128 ids by s_codec_enc / s_codec_dec), chrono seconds <-> DateTime as the identity on an opaque 32-bit token, payloads as opaque 16-bit tokens',
+    'engine Q: four bounded histories (<= 11 calls, two clients, every id symbolic) from the EMPTY database; histories respect the documented preconditions (client exists for writes, globally fresh version id, parent without child); when the current glue cannot be encoded or a violated obligation does not reproduce on the real SqliteStorage the leg is reported as not decided',
+]
+
 FUNCS_SERVER = ['core/src/server.rs: Server::add_version', 'Server::get_child_version', 'Server::add_snapshot', 'Server::get_snapshot', 'Server::txn (compiled MIR via Kani)']
 
 PROPS = {
     'C01': dict(
+        Q=True,
         I=['c'],
         K=dict(quick=['c01_step_n7_k0', 'c01_step_n7_k1', 'c01_step_n5_k2', 'c01_step_n7_k3', 'c01_walk_n3', 'c01_hist_k2'], thorough=['c01_step_n8_k0', 'c01_step_n8_k1', 'c01_step_n8_k2', 'c01_step_n8_k3', 'c01_walk_n6', 'c01_hist_k3', 'c01_step_n7_k2', 'c01_walk_n4']),
         S=dict(quick=[], thorough=['s_reads_byparent', 's_writes_addversion', 's_reopen']),
         bounds='induction step from every REACH-shaped state with chain <= 7 (thorough 8), 2 clients, any request with any 128-bit ids; walk at chain <= 4 (6); histories of 2 (3) requests from the empty store',
     ),
     'C02': dict(
+        Q=True,
         H=['c06', 'c14'],
         I=['c'],
         K=dict(quick=['c02_cas_n7'], thorough=['c02_cas_n8']),
@@ -60,6 +68,7 @@ PROPS = {
         bounds='one failing storage call (thorough: two) at any of the first 12 calls, failing before or (commit) after taking effect; any operation; chain <= 4 (7)',
     ),
     'C06': dict(
+        Q=True,
         I=['c'],
         H=['c06'],
         K=dict(quick=['c06_roundtrip_n3'], thorough=['c06_roundtrip_n3']),
@@ -67,17 +76,20 @@ PROPS = {
         bounds='payload and snapshot of symbolic length 0..2 and symbolic bytes through the compiled Server and the SQLite glue; longer payloads (page boundaries up to 100 MiB) are outside the claim',
     ),
     'C07': dict(
+        Q=True,
         I=['c'],
         K=dict(quick=['c07_frame_n7_k0', 'c07_frame_n7_k2', 'c07_frame_n4_rd'], thorough=['c07_frame_n8_k0', 'c07_frame_n8_k2', 'c07_frame_n4_rd']),
         S=dict(quick=[], thorough=['s_writes_addversion', 's_reads_byparent', 's_reopen']),
         bounds='every REACH-shaped state with chain <= 7 (8), any later request of either client, every earlier version re-read',
     ),
     'C08': dict(
+        Q=True,
         K=dict(quick=['c08_table_n7'], thorough=['c08_table_n8']),
         S=dict(quick=[], thorough=['s_writes_addversion', 's_reads_byparent']),
         bounds='every REACH-shaped state with chain <= 7 (8), arbitrary 128-bit p, known and unknown clients; AddVersion half = the real add_version on the same state',
     ),
     'C09': dict(
+        Q=True,
         H=['c16'],
         I=['c'],
         K=dict(quick=['c09_nonint_n2'], thorough=['c09_nonint_n4', 'c09_nonint_n3']),
@@ -89,12 +101,14 @@ PROPS = {
         bounds='every REACH-shaped chain <= 7 (8) (window of 5 exercised on both sides), existing snapshot at any position or none, arbitrary 128-bit v',
     ),
     'C11': dict(
+        Q=True,
         I=['c'],
         K=dict(quick=['c11_none_n7', 'c11_prev_n7', 'c11_interleaved_n2'], thorough=['c11_none_n8', 'c11_prev_n8', 'c11_interleaved_n4']),
         S=dict(quick=[], thorough=['s_reads_snapdata', 's_reads_byid', 's_writes_snapshot', 's_reads_client']),
         bounds='as C10, followed by the real get_snapshot and get_child_version; one interfering AddVersion/AddSnapshot at transaction granularity, chain <= 4',
     ),
     'C12': dict(
+        Q=True,
         I=['c'],
         M=True,
         K=dict(quick=['c12_wiring_n2'], thorough=['c12_wiring_n2']),
@@ -102,6 +116,7 @@ PROPS = {
         bounds='threshold kernels: ALL 2^64 x 2^64 (days) and 2^32 x 2^32 (versions) inputs, dev and release overflow settings (loop-free, full bit-width); wiring: symbolic config and counter, ages from an 8-entry table, chain <= 2',
     ),
     'C13': dict(
+        Q=True,
         I=['c'],
         S=dict(quick=['s_exclusive'], thorough=['s_reads_client', 's_reads_snapdata', 's_reads_byparent', 's_reads_byid', 's_writes_newclient', 's_writes_snapshot', 's_writes_addversion', 's_reopen']),
         bounds='SQLite glue vs storage contract, per StorageTxn method, rows <= 3; reopen between any two steps (quick: the three write methods, get_client and reopen; the other read methods run in the quick checks of C09/C11/C18 and in the thorough tier here); in-memory backend vs contract: every method (engine I)',
@@ -119,6 +134,7 @@ PROPS = {
         bounds='as C14; allow-list membership is an uninterpreted predicate (any list, any id)',
     ),
     'C18': dict(
+        Q=True,
         H=['c15'],
         I=['c'],
         K=dict(quick=['c18_frame_n7_k0', 'c18_frame_n7_k1', 'c18_frame_n7_k2', 'c18_frame_n7_k3'], thorough=['c18_frame_n8_k0', 'c18_frame_n8_k1', 'c18_frame_n8_k2', 'c18_frame_n8_k3']),
